@@ -730,7 +730,8 @@ func (u *Unit) scanWrites(fr *frame, blocks map[*ssa.BasicBlock]bool, ws *writeS
 			case *ssa.Defer:
 				ws.all, ws.why = true, "defer in loop"
 			case ssa.CallInstruction:
-				u.scanCallWrites(fr, x.Common(), ws, inLoop, depth)
+				iv, _ := ins.(ssa.Value)
+				u.scanCallWrites(fr, x.Common(), iv, ws, inLoop, depth)
 			}
 		}
 	}
